@@ -86,6 +86,9 @@ def run(ctx, facts):
     ctx.rule("LOWER", C05.RULES["LOWER"])
     C05.lower_rules(ctx, facts)
     C13.require_verified_reset(ctx, facts, [C13.FY], "RESETBEFORE")
+    # a sketcher reused after reinit must follow the same model as a new one (stale registers or a stale pruning bound do not)
+    ctx.rule("REINIT", "SetSketcher::reinit re-establishes every live mutated field with the constructor's value (RESET analysis of C13)")
+    C13.require_verified_reset(ctx, facts, [C13.SS], "REINIT")
     C04._resetbefore(ctx, facts, C04.SS + "sketch")
     check_seeds(ctx, facts, "SEED", {C04.SS + "sketch": C04.SEED_TABLE[C04.SS + "sketch"]})
     # information: lower bound capped by the upper bound
